@@ -313,6 +313,59 @@ def object_history(part, job):
     part.outcome(("objhist", L))
 
 
+def constructor_history(part, job):
+    """
+    two SHT objects with the same L but different (documented) grid sizes built one after the other in one process: each
+    must be exact on ITS OWN grid - nodes are the Gauss-Legendre nodes of its ntheta, analysis of reference samples on its grid
+    returns the coefficients, synthesis returns the reference samples - whatever was constructed before it
+    """
+    from chmpy.shape.sht import SHT
+
+    L = job
+    grids = [(None, None), (L + 1, 2 * L + 1), (2 * L + 2, 4 * L + 2), (L + 3, 2 * L + 4), (None, 4 * L + 4), (2 * L + 5, None)]
+    nc, nr = (L + 1) ** 2, (L + 1) * (L + 2) // 2
+    cc = dense(nc, 0)
+    cr = dense(nr, 1)
+    cr[: L + 1] = cr[: L + 1].real
+
+    def verify(s, g, before):
+        case = {"kind": "ctorhist", "L": L}
+        nt = g[0] if g[0] is not None else s.ntheta
+        if g[0] is not None and s.ntheta != g[0] or g[1] is not None and s.nphi != g[1]:
+            part.fail("ctor-history:grid-size", "SHT(%d, ntheta=%s, nphi=%s) reports a %dx%d grid" % (L, g[0], g[1], s.ntheta, s.nphi), case)
+            return
+        x, _ = np.polynomial.legendre.leggauss(nt)
+        if len(s.cos_theta) != nt or np.abs(np.sort(np.asarray(s.cos_theta)) - np.sort(x)).max() > 1e-12:
+            part.fail("ctor-history:nodes", "SHT(%d, ntheta=%s, nphi=%s) built after %s does not hold the %d Gauss-Legendre nodes of its own grid"
+                      % (L, g[0], g[1], before, nt), case)
+            return
+        th, ph = np.meshgrid(np.asarray(s.theta), np.asarray(s.phi), indexing="ij")
+        fc = ylm.synth_complex(L, cc, th.ravel(), ph.ravel()).reshape(th.shape)
+        fr = ylm.synth_real(L, cr, th.ravel(), ph.ravel()).reshape(th.shape)
+        for nm, got, want in (("analysis (complex)", s.analysis(fc), cc), ("analysis (real)", s.analysis(fr.real), cr),
+                              ("synthesis (complex)", s.synthesis(cc), fc), ("synthesis (real)", s.synthesis(cr), fr.real)):
+            part.tr()
+            if np.asarray(got).shape != np.asarray(want).shape or np.abs(np.asarray(got) - want).max() > tol(L) * 50:
+                part.fail("ctor-history:%s" % nm.split(" ")[0], "L=%d: %s on the grid (ntheta=%s, nphi=%s) built after %s is not exact (dev %.3g)"
+                          % (L, nm, g[0], g[1], before, float(np.abs(np.asarray(got) - want).max()) if np.asarray(got).shape == np.asarray(want).shape else np.inf), case)
+                return
+
+    for g1 in grids:
+        for g2 in grids:
+            part.ev()
+            import importlib
+            import chmpy.shape.sht as shtmod
+
+            importlib.reload(shtmod)          # module-level state starts empty for every history
+            s1 = shtmod.SHT(L, ntheta=g1[0], nphi=g1[1])
+            verify(s1, g1, "nothing")
+            s2 = shtmod.SHT(L, ntheta=g2[0], nphi=g2[1])
+            verify(s2, g2, "SHT(%d, ntheta=%s, nphi=%s)" % ((L,) + g1))
+            verify(s1, g1, "(re-checked after constructing another object)")
+            part.outcome(("ctorhist", g1 == g2, g2[0] is None))
+    part.nstates(len(grids) ** 2)
+
+
 def run(ctx):
     Lb = 32 if ctx.thorough else 16
     Lpy = 12 if ctx.thorough else 8
@@ -321,6 +374,7 @@ def run(ctx):
     ctx.pmap(check_L, jobs)
     hjobs = [(3, 3), (4, 3 if ctx.thorough else 2), (8, 2)]
     ctx.pmap(object_history, hjobs)
+    ctx.pmap(constructor_history, [2, 3, 5, 8, 12] + ([16, 23] if ctx.thorough else []))
     ctx.bounds["object_histories"] = "all sequences of <= 3 calls at L=3 (thorough also L=4) and <= 2 calls at L in {4,8} over 11 methods on one reused SHT object"
     ctx.rule = ("every L in 0..64; for L <= %d every basis vector e_(l,m) and i*e_(l,m) of the complex and of the real (m-major) layout through analysis and "
                 "synthesis; above, the channels l in {0,1,L/2,L-1,L} x m in {-l,-1,0,1,l} and two dense vectors; pure-Python paths and point-wise "
@@ -333,6 +387,9 @@ def run(ctx):
 
 
 def replay(ctx, case):
+    if case.get("kind") == "ctorhist":
+        constructor_history(ctx, case["L"])
+        return
     if case.get("kind") == "objhist":
         object_history(ctx, (case["L"], case["depth"]))
         return
